@@ -1,6 +1,10 @@
 package main
 
-import "golang.org/x/tools/go/ssa"
+import (
+	"strings"
+
+	"golang.org/x/tools/go/ssa"
+)
 
 func init() { registry["C18"] = checkC18 }
 
@@ -43,6 +47,62 @@ func checkC18(c *Ctx) {
 	klen := `make\((\(\(call:\(\*math/big\.Int\)\.BitLen\+7\)/8\)|call:[^ ]*\.Size[^ ]*)\)`
 	c.callArgRule(p, "C18.finalize", "the blinded message has the length of the modulus", p.Func(br, "Client", "fixedBlind"), "(*math/big.Int).FillBytes", "", map[int]string{1: klen})
 	c.callArgRule(p, "C18.finalize", "the blinded message has the length of the modulus", p.Func(pb, "", "fixedPartiallyBlind"), "(*math/big.Int).FillBytes", "", map[int]string{1: klen})
+	// RFC 9474 5: the randomised variants prepare the message with a 32-byte random prefix, the deterministic ones
+	// with none - decided per variant constant by constant propagation through NewClient
+	if nc := p.Func(br, "", "NewClient"); nc == nil {
+		c.undecided("C18.pss", "NewClient: preparation prefix per variant", "anchor does not resolve", "")
+	} else {
+		for _, t := range []struct {
+			v    int64
+			want string
+			name string
+		}{{0, "32", "RSABSSA-SHA384-PSS-Randomized"}, {1, "32", "RSABSSA-SHA384-PSSZero-Randomized"}, {2, "0", "RSABSSA-SHA384-PSS-Deterministic"}, {3, "0", "RSABSSA-SHA384-PSSZero-Deterministic"}} {
+			construct := fname(nc) + ": " + t.name + " prepares messages with a " + t.want + "-byte random prefix"
+			q := &GuardQuery{P: p, Root: nc, MaxDepth: 0}
+			q.Args = make([]lat, len(nc.Params))
+			for i := range q.Args {
+				q.Args[i] = latTop
+			}
+			vi := paramIdx(nc, "v")
+			if vi < 0 {
+				c.undecided("C18.pss", construct, "parameter v does not exist", p.fnPos(nc))
+				continue
+			}
+			q.Args[vi] = latInt(t.v)
+			q.NoInline = map[string]bool{"blindsign/blindrsa.NewVerifier": true}
+			var got []string
+			q.ObserveStore = func(in *ssa.Function, st *ssa.Store, get func(ssa.Value) lat) {
+				if in != nc {
+					return
+				}
+				if fa, ok := st.Addr.(*ssa.FieldAddr); ok && fieldName(fa) == "prefixLen" {
+					l := get(st.Val)
+					if l.k == kConst {
+						got = append(got, l.c.ExactString())
+					} else {
+						got = append(got, "?")
+					}
+				}
+			}
+			runGuard(q)
+			got = uniq(got)
+			switch {
+			case len(got) == 0:
+				c.bad("C18.pss", construct, "no client is built for this variant", p.fnPos(nc))
+			case len(got) == 1 && got[0] == t.want:
+				c.ok("C18.pss", construct, "prefixLen = "+got[0], p.fnPos(nc))
+			default:
+				c.bad("C18.pss", construct, "prefixLen is "+strings.Join(got, " / ")+", RFC 9474 says "+t.want, p.fnPos(nc))
+			}
+		}
+	}
+	// the signer hands out a blind signature of exactly the modulus length (Finalize refuses any other); the
+	// byte size of a key is ceil(bits / 8)
+	for _, pk := range []string{br, pb} {
+		c.callCountRule(p, "C18.signer", "the blind signature is written into a buffer of the modulus length (FillBytes, not the minimal Bytes)", p.Func(pk, "Signer", "BlindSign"),
+			map[string]int{"(*math/big.Int).FillBytes": 1, "(*math/big.Int).Bytes": 0})
+	}
+	c.returnRule(p, "C18.signer", "the size of a key in bytes is ceil(bits / 8)", p.Func(br+"/internal/keys", "BigPublicKey", "Size"), 0, `\(\(call:\(\*math/big\.Int\)\.BitLen\+7\)/8\)`)
 	modLen := `len\(param#[12]\) != \(\(call:\(\*math/big\.Int\)\.BitLen\+7\)/8\)`
 	c.rejectReasonsRule(p, "C18.finalize", reasonSpec{pkg: br, typ: "Client", name: "Finalize", why: "length, range of the blind signature, verification of the unblinded one",
 		callees: []string{"(*math/big.Int).Cmp", cm + ".VerifyBlindSignature"}, conds: []string{modLen}})
